@@ -163,7 +163,7 @@ def gen_sm_segments(rng):
             nc = rng.choice([6, 6, 6, 7, 9, 5, 1, 0])
             p = rparam(rng, key, ncomps=nc)
             if nc >= 6 and rng.random() < 0.7:
-                p[2][:6] = ["\n     dance-single", "\n     desc", "\n     Hard", "\n     9", "\n     0,0,0", "\n0000\n0001\n,\n1000\n0000\n"]
+                p[2][:6] = ["\n     dance-single", "\n     " + rng.choice(["desc", "K\\O mix", "a\\"]), "\n     Hard", "\n     9", "\n     0,0,0", "\n0000\n0001\n,\n1000\n0000\n"]
             segs.append(p)
         else:
             segs.append(rparam(rng, key))
@@ -184,7 +184,7 @@ def gen_ssc_segments(rng, chart_only=False):
         items = [rparam(rng, rkey(rng, KEYS_SSC_CHART)) for _ in range(rng.choice([0, 1, 3, 6]))]
         if rng.random() < 0.9:
             nk = rng.choice(["NOTES", "NOTES", "notes", "NOTES2", "Notes2"])
-            notes = ["param", nk, [rng.choice(["\n0000\n0000\n0000\n0000\n", "", "0", "\n0001\n,\n1000\n"])], ";"]
+            notes = ["param", nk, [rng.choice(["\n0000\n0000\n0000\n0000\n", "", "0", "\n0001\n,\n1000\n", "00\\00\n", "\n0000\n\\"])], ";"]
             items.insert(rng.randint(0, len(items)) if rng.random() < 0.3 else len(items), notes)
         segs.extend(items)
     return segs
